@@ -389,7 +389,9 @@ func callbackPath(f *FilterSpec) string { return f.CallbackPath }
 // ---- C02 / C05: what is written to the store ---------------------------------------------------
 
 // verifyBound applies the independent verifier to an ID token that is about to be / is bound to sid.
-func (w *World) verifyBound(f *FilterRT, sid, tok string, login bool) string {
+// binding: the token is being written by a check right now (the key-set clause is judged at that moment only: a key
+// retired later does not make an earlier binding wrong).
+func (w *World) verifyBound(f *FilterRT, sid, tok string, login bool, binding ...bool) string {
 	claims, err := VerifyJWT(tok, f.IdP.Keys)
 	if err != nil {
 		return "signature: " + err.Error()
@@ -419,6 +421,12 @@ func (w *World) verifyBound(f *FilterRT, sid, tok string, login bool) string {
 	if it == nil {
 		return "token was not issued by the provider"
 	}
+	// "under the filter's configured key set": the provider's own key that made the signature must be one the filter
+	// can know (statically configured; or published, and when it no longer is, not after every fetch interval has passed)
+	if len(binding) > 0 && binding[0] && it.Key != nil && w.keyKnowledge(f, it.Key) == "unknown-key" {
+		w.probe("bound-token-judged-against-the-knowable-key-set:unknown")
+		return "signature-key: made with a key of the provider that is not in the filter's key set (retired or never published)"
+	}
 	// (which session's grant the token came from is not judged on the refresh path: the property binds
 	// the nonce at login only)
 	return ""
@@ -446,7 +454,7 @@ func (w *World) monStores(rec *CheckRec) {
 		if !fromEndpoint {
 			w.violate("C02", "tokens-stored-without-token-endpoint-answer", fmt.Sprintf("check #%d", rec.N))
 		}
-		if why := w.verifyBound(f, s.SID, s.Tokens.IDToken, login); why != "" {
+		if why := w.verifyBound(f, s.SID, s.Tokens.IDToken, login, true); why != "" {
 			w.violate("C02", "invalid-id-token-bound:"+strings.Fields(why)[0], fmt.Sprintf("check #%d (%s) bound an ID token to session %s: %s", rec.N, map[bool]string{true: "login", false: "refresh"}[login], w.canon(s.SID), why))
 		}
 		w.probe("tokens-bound")
